@@ -295,9 +295,21 @@ def data_cases(tier, seed):
             yield {"fam": "data", "x": list(xs), "score": "CUSUM", "b": 6, "mdi": mdi, "thr_scale": 0.1}
 
 
-FAMILIES = {"place": lambda t, s: place_cases(t), "detect": lambda t, s: detect_cases(t),
+def long_cases(tier):
+    for n in (16, 24) if tier == "quick" else (16, 24, 32, 40):
+        for b, mdi in ((4, 1), (6, 2), (5, 1), (8, 3)):
+            if n < 2 * b:
+                continue
+            for cps, xs in util.structured_series(n, 2, (0.0, 3.0)):
+                if len(cps) == 2 and (cps[0] * 3 + cps[1]) % 3 and n > 16:
+                    continue
+                for score, ts in (("CUSUM", 0.5), ("L2cost", 1.0)):
+                    yield {"fam": "data", "x": list(xs), "score": score, "b": b, "mdi": mdi, "thr_scale": ts}
+
+
+FAMILIES = {"long": lambda t, s: long_cases(t), "place": lambda t, s: place_cases(t), "detect": lambda t, s: detect_cases(t),
             "tuned": lambda t, s: tuned_cases(t), "data": lambda t, s: data_cases(t, s)}
-NSH = {"place": 8, "detect": 64, "tuned": 16, "data": 64}
+NSH = {"long": 32, "place": 8, "detect": 64, "tuned": 16, "data": 64}
 
 
 def shards(tier, seed):
@@ -310,6 +322,7 @@ def bounds(tier, seed):
         "detect_configs(n,b)": "quick: (2,1),(3,1),(4,1),(4,2),(5,2),(6,1),(6,3),(7,3),(8,4),(8,2),(9,3),(12,6),(14,6),(16,6),(18,8),(18,6),(20,8); thorough adds 9 more; full level tables for <=6 (quick) / <=8 (thorough) positions, otherwise <=3 / <=4 deviations",
         "levels": "{0, thr, nextafter(thr,+inf), 2*thr} with thr the detector's own default threshold (read back)",
         "min_detection_interval": "1..max(1, b/2-1)",
+        "long": "piecewise-constant textured series n in (16,24) quick / up to 40, <= 2 changes, bandwidth in (4,5,6,8), mdi up to 3",
         "data": "all series over (0,1,3) and its seed-affine image, n<=7 (quick) / 9; 2-column (0,3) n<=5/6; (0,4) n=12/14 with bandwidth 6, mdi in (1,2)",
     }
 
